@@ -112,18 +112,40 @@ def process_phase(tier):
             if zlib.crc32(d["text"].encode()) % 5 == 0:
                 corpus.append({**d, "ra": True})
         corpus.extend(mk)
+        # families: the same volume/reporter/page cited under different (or no) party names, adjacent in the corpus
+        fam = []
+
+        def collect_fam(x):
+            fam.append(x)
+
+        import hypothesis
+        from hypothesis import HealthCheck, Phase as HP, given, settings
+
+        @hypothesis.seed(seed * 31 + 17)
+        @settings(max_examples=60 if tier == "quick" else 1000, database=None, deadline=None, suppress_health_check=list(HealthCheck), phases=[HP.generate])
+        @given(_family())
+        def t(x):
+            fam.append(x)
+
+        t()
+        for f in fam:
+            for item in f["texts"]:
+                corpus.append(dict(item, family=True) if isinstance(item, dict) else {"text": item, "family": True})
         workdir = os.path.join(HOME, "out", "C15", f"proc-{os.getpid()}")
         shutil.rmtree(workdir, ignore_errors=True)
         os.makedirs(workdir)
         try:
             nchunks = max(1, 16 // len(seeds))
-            chunks = [corpus[i::nchunks] for i in range(nchunks)]
+            size = (len(corpus) + nchunks - 1) // nchunks
+            chunks = [corpus[i * size:(i + 1) * size] for i in range(nchunks)]  # contiguous: families stay together
             jobs = []
             for ci, chunk in enumerate(chunks):
                 cp = os.path.join(workdir, f"corpus{ci}.json")
                 json.dump(chunk, open(cp, "w", encoding="utf8"), ensure_ascii=False)
-                for s in seeds:
-                    jobs.append((ci, s, "ac", cp, os.path.join(workdir, f"out-{ci}-{s}-ac.json")))
+                for si, s in enumerate(seeds):
+                    # every other child walks its chunk backwards: a result that depends on which texts were
+                    # processed before shows up as a difference between children
+                    jobs.append((ci, s, "ac" + ("-rev" if si % 2 else ""), cp, os.path.join(workdir, f"out-{ci}-{s}-ac.json")))
             # hs / ref on a subset (two seeds)
             sub = (corpus[: len(ties) * 4] + corpus[len(ties) * 4:: 8])[: 400 if tier == "quick" else 4000]
             sp = os.path.join(workdir, "corpus-sub.json")
@@ -150,7 +172,7 @@ def process_phase(tier):
             # compare
             results = defaultdict(dict)  # (chunk, tokenizer) -> seed -> list
             for ci, s, tkn, cp, op in jobs:
-                results[(ci, tkn)][s] = json.load(open(op, encoding="utf8"))
+                results[(ci, tkn.replace("-rev", ""))][s] = json.load(open(op, encoding="utf8"))
             for (ci, tkn), by_seed in results.items():
                 items = chunks[ci] if ci != "sub" else sub
                 ss = sorted(by_seed, key=str)
@@ -166,7 +188,7 @@ def process_phase(tier):
                     if len(set(vals)) > 1:
                         a = vals[0]
                         j = next(k for k, v in enumerate(vals) if v != a)
-                        res.v(f"hash-seed-dependent:{tkn}", f"PYTHONHASHSEED={ss[0]}: {_difference(a, vals[j])} vs PYTHONHASHSEED={ss[j]}", case={"kind": "process", "tokenizer": tkn, "seeds": [str(ss[0]), str(ss[j])], **{k: v for k, v in item.items()}})
+                        res.v(f"process-dependent:{tkn}" if item.get("family") else f"hash-seed-dependent:{tkn}", f"PYTHONHASHSEED={ss[0]}: {_difference(a, vals[j])} vs PYTHONHASHSEED={ss[j]}", case={"kind": "process", "tokenizer": tkn, "seeds": [str(ss[0]), str(ss[j])], **{k: v for k, v in item.items()}})
                     total.add("processes", case, res)
             total.extra["hash_seeds"] = [str(s) for s in seeds]
             total.extra["tie_prone_cores"] = len(ties)
@@ -222,6 +244,8 @@ def _extract(text, opt):
     kw = {}
     if opt & 1:
         kw["remove_ambiguous"] = True
+    if isinstance(text, dict):  # markup mode
+        return call(get_citations, markup_text=text["markup"], clean_steps=list(text["steps"]), tokenizer=toks["ac"], **kw)
     return call(get_citations, text, tokenizer=toks["ac"], **kw)
 
 
@@ -233,7 +257,7 @@ def eval_history(case):
     any_cite = False
     for step, (i, opt) in enumerate(case["ops"]):
         text = texts[i % len(texts)]
-        before = str(text)
+        before = json.dumps(text, sort_keys=True) if isinstance(text, dict) else str(text)
         out = _extract(text, opt)
         if isinstance(out, Raised):
             res.label("raised")
@@ -244,7 +268,7 @@ def eval_history(case):
         if key in first and first[key] != s:
             res.v("history-dependent", f"step {step}: extract(text #{key[0]}, ra={key[1]}) differs from its first result: {_difference(first[key], s)}")
         first.setdefault(key, s)
-        if text != before:
+        if (json.dumps(text, sort_keys=True) if isinstance(text, dict) else text) != before:
             res.v("input-modified", f"step {step}")
         kept.append((key, out, s))
         for k2, out2, s2 in kept[:-1]:
@@ -342,7 +366,18 @@ def eval_threads(case):
     for t in texts:
         out = call(get_citations, t)
         base.append(ser(out) if not isinstance(out, Raised) else f"RAISED {out.type}")
-    thunks = [(lambda t=t: ser(get_citations(t))) for t in texts]
+    if case.get("fresh"):
+        # a freshly constructed tokenizer is in the state the default tokenizer has at process start (cold)
+        from eyecite.tokenizers import AhocorasickTokenizer
+
+        tok = call(AhocorasickTokenizer)
+        if isinstance(tok, Raised):
+            res.label("raised")
+            return res
+        thunks = [(lambda t=t: ser(get_citations(t, tokenizer=tok))) for t in texts]
+        res.label("cold-tokenizer")
+    else:
+        thunks = [(lambda t=t: ser(get_citations(t))) for t in texts]
     if case.get("stress"):
         results = [None] * len(texts)
         old = sys.getswitchinterval()
@@ -413,7 +448,32 @@ def _text():
     return st.one_of(legal.document(hostile=False, multibyte=True, max_frags=5), legal.document(hostile=True, max_frags=4), st.sampled_from(_TIE_TEXTS))
 
 
+@st.composite
+def _family(draw):
+    """Texts that cite the SAME volume/reporter/page under different (or no) party names, in plain and markup
+    mode: any memo keyed on a citation's value instead of its text shows up as history dependence."""
+    names = draw(st.lists(st.sampled_from(["Kalomi", "Rentov", "Zenqua", "Drifel", "Gorhup", "Vaswim", "Miranda", "Arizona"]), min_size=4, max_size=4, unique=True))
+    a, b, c, d = names
+    cite = f"{draw(st.integers(1, 500))} {draw(st.sampled_from(['U.S.', 'F.2d', 'F.3d', 'P.2d']))} {draw(st.integers(1, 900))}"
+    steps = draw(st.sampled_from([["html"], ["html", "all_whitespace"]]))
+    docs = [
+        {"markup": f"<i>{a}</i> v. <i>{b}</i>, {cite} (1999). Later the <i>{a}</i> court said so; see <em>{b}</em>.", "steps": steps},
+        {"markup": f"See {cite} (1999). The <i>{a}</i> court and the <em>{c}</em> court agreed.", "steps": steps},
+        {"markup": f"{c} v. {d}, {cite}. In <em>{c}</em> and in <i>{a}</i> the rule was stated; <i>{d},</i> too.", "steps": steps},
+        f"{a} v. {b}, {cite}. {a} at 5 and {c} at 6.",
+        f"{c} v. {d}, {cite} (2001). {a} at 5 and {c} at 6. Id. at 7.",
+        f"See {cite}. {a} at 5.",
+    ]
+    texts = draw(st.lists(st.sampled_from(docs), min_size=2, max_size=4))
+    ops = draw(st.lists(st.tuples(st.integers(0, 3), st.integers(0, 1)).map(list), min_size=2, max_size=10))
+    return {"kind": "history", "texts": texts, "ops": ops}
+
+
 def _history():
+    return st.one_of(_family(), _plain_history())
+
+
+def _plain_history():
     return st.builds(
         lambda texts, ops: {"kind": "history", "texts": texts, "ops": ops},
         st.lists(_text(), min_size=1, max_size=4),
@@ -425,10 +485,28 @@ def _threads(stress=False):
     if stress:
         return st.lists(_text(), min_size=8, max_size=8).map(lambda t: {"kind": "threads", "texts": t, "stress": True})
     return st.builds(
-        lambda texts, sched: {"kind": "threads", "texts": texts, "schedule": sched},
+        lambda texts, sched, fresh: {"kind": "threads", "texts": texts, "schedule": sched, "fresh": fresh},
         st.lists(_text(), min_size=2, max_size=4),
-        st.lists(st.integers(1, 60), min_size=5, max_size=80),
+        st.lists(st.one_of(st.integers(1, 60), st.integers(1, 60), st.integers(100, 20000)), min_size=5, max_size=80),
+        st.sampled_from([False, False, True]),
     )
+
+
+COLD_TEXTS = ["Foo v. Bar, 1 U.S. 1, 5 (1999). Id. at 6. Bar, supra, at 7. Roe v. Wade, 410 U.S. 113. Ibid. at 2.",
+              "See Smith v. Jones, 2 F.2d 2 (4th Cir. 1950); id. at 9; Jones, supra; 42 U.S.C. § 1983."]
+
+
+def _cold_sweep_items(tier):
+    """Single-preemption sweep on a cold tokenizer: thread A runs k line events inside eyecite, then thread B runs to
+    completion, then A finishes. k follows a geometric grid, so every stretch of the first call (lazy set-up included)
+    is interrupted somewhere."""
+    ratio = 1.05 if tier == "quick" else 1.01
+    ks, k = [], 1.0
+    while k < 400000:
+        ks.append(int(k))
+        k = max(k * ratio, k + 1)
+    ks = sorted(set(ks))
+    return [{"kind": "threads", "texts": COLD_TEXTS, "schedule": [k_, 10 ** 9], "fresh": True, "sweep": True} for k_ in ks]
 
 
 def phases(tier):
@@ -437,5 +515,6 @@ def phases(tier):
         Phase("histories", "gen", strategy=_history, n=n_hist),
         Phase("thread-schedules", "gen", strategy=_threads, n=n_thr),
         Phase("thread-stress", "gen", strategy=lambda: _threads(True), n=n_stress),
+        Phase("cold-start-preemption-sweep", "enum", items=lambda: _cold_sweep_items(tier), chunk=4),
         Phase("processes", "custom", fn=process_phase(tier)),
     ]
